@@ -50,6 +50,7 @@ def load_checks():
 CHECKS = load_checks()
 
 NOT_APPLICABLE = {}
+NOEVIDENCE = False
 
 ENGINES = [
     dict(name="A:vsched", path="harness/vsched + tools/rewrite", serves_properties=["C17", "C18"],
@@ -365,8 +366,9 @@ def finish(prop, cfg, tier, seed, results, hard, notes, fallback, race_report, w
               repo_head=git_head(), repo_dirty=git_dirty())
     if hard:
         ev["hard_errors"] = hard[:20]
-    os.makedirs(os.path.join(VERIF, "evidence"), exist_ok=True)
-    with open(os.path.join(VERIF, "evidence", prop + ".json"), "w") as f:
+    evdir = os.path.join(BUILD, "selftest-evidence") if NOEVIDENCE else os.path.join(VERIF, "evidence")
+    os.makedirs(evdir, exist_ok=True)
+    with open(os.path.join(evdir, prop + ".json"), "w") as f:
         json.dump(ev, f, indent=1, sort_keys=True)
     for l in lines:
         print(l)
@@ -490,9 +492,12 @@ def main():
     ap.add_argument("--budget")
     ap.add_argument("--only")
     ap.add_argument("--keep", action="store_true")
+    ap.add_argument("--noevidence", action="store_true", help="do not overwrite evidence/<id>.json (runs against altered trees)")
     ap.add_argument("--xargs", default="", help="extra arguments passed to the harness binary (debugging)")
     a = ap.parse_args()
     seed = int(os.environ.get("VERIF_SEED", "1") or 1)
+    global NOEVIDENCE
+    NOEVIDENCE = a.noevidence
     if a.what == "manifest":
         sys.exit(cmd_manifest())
     if a.what == "setup":
